@@ -402,12 +402,15 @@ async fn drive(cfg: Cfg, ops: Vec<Op>, listener: &TcpListener) -> String {
                 accept = None;
             }
         }
+        // let spawned connection tasks run
+        tokio::task::yield_now().await;
         // diagnostics are read before the finished worker is dropped
         if let Some(w) = worker.as_ref() {
-            if !panicked {
-                diags.push(format!("{}:{}:{}", w.state_name(), w.raw_counter(), w.queued()));
-            } else {
+            if panicked {
                 diags.push("panicked".into());
+            } else {
+                let st = if finished { "Done" } else { w.state_name() };
+                diags.push(format!("{}:{}:{}", st, w.raw_counter(), w.queued()));
             }
         }
         if finished {
@@ -415,8 +418,6 @@ async fn drive(cfg: Cfg, ops: Vec<Op>, listener: &TcpListener) -> String {
             let w = worker.take();
             let _ = panic::catch_unwind(AssertUnwindSafe(move || drop(w)));
         }
-        // let spawned connection tasks run
-        tokio::task::yield_now().await;
 
         let mut seg: Vec<String> = CTX.with(|c| std::mem::take(&mut c.borrow_mut().log));
         if tokio::time::Instant::now() - t0 != Duration::from_millis(virt) {
